@@ -530,7 +530,14 @@ class Kernel(Module):
             # Did this Kernel eat the diag option?
             # If it does not return a LazyEvaluatedKernelTensor, we can call diag on the output
             if not isinstance(res, LazyEvaluatedKernelTensor):
-                if res.dim() == x1_.dim() and res.shape[-2:] == torch.Size((x1_.size(-2), x2_.size(-2))):
+                # A full matrix has two matrix dimensions after the batch dimensions, a diagonal has one. The kernel's own
+                # batch shape counts towards the batch dimensions (it may have more of them than the inputs).
+                try:
+                    batch_shape = torch.broadcast_shapes(x1_.shape[:-2], x2_.shape[:-2], self.batch_shape)
+                    full_dim = len(batch_shape) + 2
+                except RuntimeError:
+                    full_dim = x1_.dim()
+                if res.dim() == max(full_dim, x1_.dim()) and res.shape[-2:] == torch.Size((x1_.size(-2), x2_.size(-2))):
                     res = res.diagonal(dim1=-1, dim2=-2)
             return res
 
